@@ -111,8 +111,10 @@ func VerifC18_UnpackEntry() {
 		if op == "rename" {
 			extracting = false
 		}
-		if extracting && (op == "open" || op == "mkdir") {
-			// entries are extracted below the per-archive temporary directory
+		if extracting && op != "stat" && op != "zipopen" && op != "zipentryopen" && op != "removeall" && op != "remove" {
+			// entries (files and directories alike) are extracted below the
+			// per-archive temporary directory; only the clean-up of a
+			// failed unpack touches anything else
 			rt.Assert(insideC18(unpackTmp, rt.FsPath(i)), "unpack/entry-inside-unpack-dir")
 		}
 		if op != "zipopen" && op != "stat" {
